@@ -178,6 +178,9 @@ class Scheduler:
         self.atomic = [0] * self.nthreads
         self.pgen_atomic = bool(plan['config'].get('pgen_atomic', False))
         self.burst = int(plan['config'].get('burst', 0))
+        self.newline_p = float(plan['config'].get('newline_p', 0.0)) if generate else 0.0
+        self.seen_lines = set()
+        self._replayed = list(self.switches)        # entries that came with the plan (replay)
         self.outcomes = {}
         self.trace = []                  # (step, from, to, both_in_op)
         self.nontrivial_switches = 0
@@ -244,6 +247,16 @@ class Scheduler:
                 self.step_cap_hit = True
                 raise _Abort('step cap')
             self.left -= 1
+            if self.newline_p and self.spos > len(self._replayed):
+                # "new line" pre-emption (generate mode only; the recorded quanta replay it): a source
+                # line that no thread of this process has executed yet is where first-use races live.
+                # With probability newline_p the thread is parked right before it runs that line.
+                key = (frame.f_code, frame.f_lineno)
+                if key not in self.seen_lines:
+                    self.seen_lines.add(key)
+                    if self.left > 0 and self.rng.random() < self.newline_p and len(self.alive) > 1:
+                        self.switches[self.spos - 1][0] -= self.left      # the quantum ends here
+                        self.left = 0
             if self.left <= 0:
                 self._switch(me)
         return self.local_trace
@@ -451,8 +464,8 @@ def make_sweep_plan(seed, idx):
     threads = [[dict(op)] for _ in range(nthreads)]
     if rng.random() < 0.5:
         threads[-1].append({'k': rng.choice(SWEEP_KINDS[:6]), 'v': version, 'text': rng.choice(texts)})
-    cfg = {'quantum': rng.choice([10, 30, 100]), 'warm': [], 'first': rng.randrange(nthreads), 'sequential': False,
-           'perm': None, 'rounds': 1, 'pgen_atomic': idx % 4 < 2, 'burst': 8000, 'attempts': 4, 'sweep': [kind, k % len(texts), version]}
+    cfg = {'quantum': rng.choice([300, 1000, 3000]), 'warm': [], 'first': rng.randrange(nthreads), 'sequential': False,
+           'perm': None, 'rounds': 1, 'pgen_atomic': idx % 4 < 2, 'burst': 0, 'newline_p': rng.choice([0.2, 0.4, 0.6]), 'attempts': 4, 'sweep': [kind, k % len(texts), version]}
     return {'sim': 'threadsim', 'seed': seed, 'config': cfg, 'threads': threads, 'switches': [], 'more': []}
 
 
@@ -494,7 +507,8 @@ def make_plan(seed, tier='quick'):
     cfg = {'quantum': rng.choice([3, 10, 30, 30, 100, 100, 300, 300, 1000, 3000]),
            'warm': versions if warm else [], 'first': rng.randrange(nthreads), 'sequential': sequential, 'perm': perm,
            'rounds': 1 if sequential else rng.choice([1, 1, 2, 3]), 'pgen_atomic': rng.random() < 0.5,
-           'burst': rng.choice([0, 0, 100, 400, 1500]) if not warm else 0}
+           'burst': rng.choice([0, 0, 100, 400, 1500]) if not warm else 0,
+           'newline_p': rng.choice([0.0, 0.0, 0.1, 0.3, 0.5])}
     if cfg['burst'] and not sequential and rng.random() < 0.5:
         # ... with every thread starting on the same grammar
         v0 = threads[0][0]['v']
